@@ -8,6 +8,7 @@ import Penguin.Basic.Loop
 import Penguin.Model.Frame
 import Penguin.Model.Mux
 import Penguin.Model.MuxExt
+import Drv.MuxCov
 
 open Penguin Penguin.Mux
 
@@ -99,8 +100,10 @@ def getEP (st : St) (n : String) : Option EP := (st.find? (·.1 = n)).map (·.2)
 def putEP (st : St) (n : String) (e : EP) : St := (n, e) :: st.filter (·.1 ≠ n)
 
 def run1 (st : St) (n : String) (e : EP) (op : Mux.Op) : St × String :=
+  let tags := MuxCov.tagsOf e op
   let (e, r, evs) := applyOp e op
-  (putEP st n e, showRes r ++ " | " ++ "; ".intercalate (evs.map showEv))
+  -- (the trailing ` | #tag …` names the model branch the stimulus exercised: reporting only)
+  (putEP st n e, showRes r ++ " | " ++ "; ".intercalate (evs.map showEv) ++ " | #" ++ " #".intercalate tags)
 
 def run3 (st : St) (n : String) (r : EP × Res × List Ev) : St × String :=
   (putEP st n r.1, showRes r.2.1 ++ " | " ++ "; ".intercalate (r.2.2.map showEv))
